@@ -274,7 +274,7 @@ def judge(ctx: core.Ctx, case: dict[str, Any]) -> None:
             ctx.observe("ok_name_classes", f"{cfg['cls']}:{ncls}")
         else:
             if o.err_class != "TemplateNotFoundError" or not isinstance(o.exc, TemplateNotFoundError):
-                ctx.violation(f"{cfg['cls']}:{ncls}:raises-{o.err_class}", f"{cfgname} {api}({case['name']!r}) raised {o.err_class}: {str(o.exc)[:120]} instead of TemplateNotFoundError")
+                ctx.violation(f"{cfg['cls']}:{ncls}:raises-{o.err_class}", f"{cfgname} {api}({case['name']!r}) raised {o.err_class}: {drv.safe_str(o.exc)[:120]} instead of TemplateNotFoundError")
                 return
             ctx.count("not_found")
             if ncls == "symlink" and cfg.get("rs"):
